@@ -399,10 +399,24 @@ def fold_block(stmts, env):
                     env[e.id] = vv
             else:
                 raise NotConst(norm(t))
+        elif isinstance(st, ast.AugAssign) and isinstance(st.target, ast.Name) and type(st.op) in _BIN:
+            env[st.target.id] = _BIN[type(st.op)](const(st.target, env), const(st.value, env))
         elif isinstance(st, ast.If):
             r = fold_block(st.body if const(st.test, env) else st.orelse, env)
             if r[0] != 'fall':
                 return r
+        elif isinstance(st, ast.For) and not st.orelse and isinstance(st.target, ast.Name):
+            # bounded iteration over a folded iterable (no break / continue inside)
+            if any(isinstance(x, (ast.Break, ast.Continue)) for x in ast.walk(st)):
+                raise NotConst('loop with break / continue')
+            it = list(const(st.iter, env))
+            if len(it) > 100000:
+                raise NotConst('loop too long')
+            for v in it:
+                env[st.target.id] = v
+                r = fold_block(st.body, env)
+                if r[0] != 'fall':
+                    return r
         elif isinstance(st, ast.Raise):
             return ('raise', norm(st.exc) if st.exc is not None else '')
         elif isinstance(st, ast.Return):
@@ -504,38 +518,11 @@ def fold_func(prog, f, args, depth=0):
             funcs[g.name] = (lambda g_: (lambda *a: fold_func(prog, g_, list(a), depth + 1)))(g)
     env['__funcs__'] = funcs
 
-    class _Ret(Exception):
-        def __init__(self, v):
-            self.v = v
-
-    def run(body):
-        for st in body:
-            if isinstance(st, ast.Expr) and (isinstance(st.value, ast.Constant) or (isinstance(st.value, ast.Call) and norm(st.value.func).startswith(('log.', 'self.log.')))):
-                continue
-            if isinstance(st, ast.Pass):
-                continue
-            if isinstance(st, ast.Assign) and len(st.targets) == 1:
-                v = const(st.value, env)
-                t = st.targets[0]
-                if isinstance(t, ast.Name):
-                    env[t.id] = v
-                elif isinstance(t, ast.Tuple) and all(isinstance(e, ast.Name) for e in t.elts):
-                    for e, vv in zip(t.elts, v):
-                        env[e.id] = vv
-                else:
-                    raise NotConst(norm(t))
-            elif isinstance(st, ast.AugAssign) and isinstance(st.target, ast.Name) and type(st.op) in _BIN:
-                env[st.target.id] = _BIN[type(st.op)](env[st.target.id], const(st.value, env))
-            elif isinstance(st, ast.If):
-                run(st.body if const(st.test, env) else st.orelse)
-            elif isinstance(st, ast.Return):
-                raise _Ret(const(st.value, env) if st.value is not None else None)
-            else:
-                raise NotConst(norm(st)[:40])
-    try:
-        run(f.node.body)
-    except _Ret as r:
-        return r.v
+    r = fold_block(f.node.body, env)
+    if r[0] == 'return':
+        return r[1]
+    if r[0] == 'raise':
+        raise NotConst('raises ' + r[1])
     return None
 
 
